@@ -118,6 +118,10 @@ def run_scenario(sc, watchdog=20.0):
     20 s per scenario."""
     if _STALLS[0] >= 3:
         watchdog = min(watchdog, 3.0)
+    if _STALLS[0] >= 12:
+        # a tree on which a dozen runs have hung: the verdict is in, the rest of
+        # the scenarios are not run (the marker is not a rule of any property)
+        return [('skipped',)]
     t0 = sc.get('t0', 0)
     if sc.get('precision') is not None:
         t0 = round(t0 * 10.0 ** -sc['precision'], sc['precision'])
